@@ -664,7 +664,10 @@ CONTENT_TYPES = [b'text/html', b'text/html; charset=utf-8', b'text/html; charset
 
 HOSTILE_LINKS = ['http://[bad/', '//cdn.test/x.class', '//', 'http://h:99999/', '&#0;', 'x', '/a', '../../..', 'javascript:void(0)', 'http://[::1',
                  '#', '?', 'mailto:x', 'data:,', 'http://%zz/', 'ht!tp://x', '//[', ' ', '', 'http://\u2603.test/', 'http://h.test:port/',
-                 'http://a..b/', 'http://' + 'a' * 300 + '/', '\\\\unc\\path', 'http:///x', 'http://h.test/%', 'ftp://u:p@h.test/']
+                 'http://a..b/', 'http://' + 'a' * 300 + '/', '\\\\unc\\path', 'http:///x', 'http://h.test/%', 'ftp://u:p@h.test/',
+                 # data: URIs whose media type is not of the form type/subtype, and other strings a type guesser sees
+                 'data:image/png/x;base64,AAAA/pixel.png', 'data:a/b/c/d,x', 'data:/,', 'data:;base64,/x.png', 'data:image,/a.gif', 'data:///x.js',
+                 'x.tar.gz/', 'a.b/c.d/e.f', 'file.svgz', '/x.css.js.html', '.htaccess', 'a.%2Fjs', 'x.JS', '/a.js?b.css#c.png']
 HTML_TEMPLATES = ['<base href="{0}">', '<a href="{0}">t</a>', '<img src="{0}" srcset="{1} 1x, {2} 2x">',
                   '<applet code="{0}" codebase="{1}" archive="{2},{0}"></applet>', '<object data="{0}" codebase="{1}" classid="{2}"></object>',
                   '<embed src="{0}" codebase="{1}">', '<meta http-equiv="refresh" content="0; url={0}">', '<link rel="stylesheet" href="{0}">',
@@ -683,10 +686,20 @@ def hostile_html(rng):
     return ''.join(parts).encode('utf-8')
 
 
+def hostile_script(rng):
+    '''Script and style sheet documents that quote hostile strings (what the JavaScript and CSS scrapers pick up).'''
+    v = [rng.choice(HOSTILE_LINKS) for _ in range(4)]
+    if rng.random() < 0.5:
+        return b'application/javascript', ('var a = "{0}"; load(\'{1}\');\nfunction f() {{ return "{2}"; }}\nx = {{"u": "{3}"}};'.format(*v)).encode('utf-8')
+    return b'text/css', ('@import "{0}"; @import url({1});\nbody {{ background: url("{2}") }} .a {{ src: url(\'{3}\') }}'.format(*v)).encode('utf-8')
+
+
 def scrape_case(rng):
     ctype, body = rng.choice(DOCS)
     r = rng.random()
-    if r < 0.2:
+    if r < 0.1:
+        ctype, body = hostile_script(rng)
+    elif r < 0.2:
         ctype, body = b'text/html', hostile_html(rng)
     elif r < 0.6:
         body = mutate(rng, body)
@@ -962,6 +975,13 @@ FTP_BAD_REPLIES = [b'\xff\xfe not ftp\r\n', b'421 too many users\r\n', b'999 wha
 def ftpcrawl_case(rng):
     '''The real application on ftp:// start URLs (files without a trailing slash - their type is probed in the parent's
     listing first -, directories, globs) against a server that misbehaves at one command of some connections.'''
+    if rng.random() < 0.2:
+        # many file URLs in as many directories (each file's type is looked up in a listing of its directory; the listings
+        # are kept in a small cache), server behaving
+        n = rng.choice([9, 10, 11, 12, 25])
+        return {'entry': 'ftpcrawl', 'start': ['/many/d%02d/file%02d.bin' % (i, i) for i in range(n)], 'many_dirs': n, 'at': 'NEVER', 'act': 'close',
+                'connections': 'all', 'recursive': rng.random() < 0.3, 'options': [o for o in ['--preserve-permissions'] if rng.random() < 0.5],
+                'mlsd': rng.random() < 0.3, 'concurrent': rng.choice([1, 1, 3]), 'second_run': False}
     return {'entry': 'ftpcrawl',
             'start': rng.sample(['/pub/file.bin', '/pub/', '/pub/sub', '/pub/*.bin', '/pub/sub/deep.txt', '/pub/missing', '/'], rng.choice([1, 2, 3])),
             'at': rng.choice(['connect', 'USER', 'PASS', 'PWD', 'CWD', 'TYPE', 'PASV', 'LIST', 'RETR', 'SIZE', 'MLSD', 'REST', 'SYST']),
@@ -976,6 +996,13 @@ def run_ftpcrawl(case, part):
     from harness import servers, crawl, ftpserver
     tree = {'/': ['pub/', 'top.txt'], '/top.txt': b'top', '/pub/': ['file.bin', 'other.bin', 'sub/'], '/pub/file.bin': b'\x00\x01' * 40,
             '/pub/other.bin': b'o' * 10, '/pub/sub/': ['deep.txt'], '/pub/sub/deep.txt': b'deep'}
+    if case.get('many_dirs'):
+        tree['/'] = tree['/'] + ['many/']
+        tree['/many/'] = ['d%02d/' % i for i in range(case['many_dirs'])]
+        for i in range(case['many_dirs']):
+            tree['/many/d%02d/' % i] = ['file%02d.bin' % i]
+            tree['/many/d%02d/file%02d.bin' % (i, i)] = b'data %d' % i
+        part.count('ftp_crawls_over_many_directories')
     conn_of = {}
     import threading
 
